@@ -260,8 +260,8 @@ Definition g_uniform_keys (c : circuit) : bool :=
    kernels) do not carry the variable's name, so delayed edges leaving two DIFFERENT variables of ONE operator collide: PyRatesException
    'Buffer variable name collision' at compile time, both vectorize settings.  In the model the two variables of such an operator are two
    source nodes; `twins` lists the pairs.  Not modelled; the guard delimits the class (conservative for gamma kernels); repaired by
-   fixes/proposed_fix_C09_two_variables.diff.  fixed_twin_names: false = the code as it is. *)
-Definition fixed_twin_names : bool := false.
+   fix D110 (fixes/round8/01_D110.diff).  fixed_twin_names: false = the code as it is. *)
+Definition fixed_twin_names : bool := true.
 Definition g_no_twin_collision (twins : list (nat * nat)) (c : circuit) : bool :=
   fixed_twin_names || forallb (fun p => negb (gadd c (nkey c (fst p)) && gadd c (nkey c (snd p)))) twins.
 
